@@ -24,6 +24,7 @@ RULE = ("engines generated from the registered classes (1-3 inputs, 1-2 outputs,
         "float evaluation is exact, so discontinuous norms, thresholds, ties and maxima defuzzifiers are compared too) and "
         "`general` (all shape terms, sqrt hedges, continuous norms). non-trivial: at least one rule fires with a degree "
         "strictly between 0 and 1 and one output is defuzzified to a finite value; distinct = distinct (engine, row)")
+RULE += (" Stream `infer` (fv/streams/infer.py): Engine.infer_type on engines with every defuzzifier family / term kind / order, Variable.highest_membership and fuzzify on variables with shape, constant (incl. NaN, +-inf) and raising terms, against Op/Infer.lean.")
 ASSUMPTIONS = ["numeric observables compared within 1e-9 abs + 1e-9 rel of the exact model value",
                "Bisector is exercised by C09 only (its arg-min ties are float-sensitive at engine level)",
                "Function terms are exercised by C17; Discrete terms by C03"]
